@@ -271,7 +271,12 @@ def main():
         not_applicable=na,
         notes="Technique family: static analysis only. Exit 0 = all obligations discharged; 1 = VIOLATION lines; "
               "2 = analysis broken (anchor vanished / shape not recognised) - never a pass. Genuine defects repaired in "
-              "/repo by 'fix:' commits are listed in known_findings.json.",
+              "/repo by 'fix:' commits are listed in known_findings.json. Every check decides its rules twice per run: for the "
+              "default build configuration and for {CBOR_BUFFER_GROWTH=3, CBOR_MAX_STACK_SIZE=5, CBOR_PRETTY_PRINTER=0} (thorough: two "
+              "more), so that code the default build does not compile or that is right for the default constants only is judged too. "
+              "Rules shared between properties (capacity-field, narrowing, no-access-after-free, record-items, insertion refusals, "
+              "guard semantics, ...) are listed per property in DESIGN.md 10.8. tools/regress.py re-runs all 129 behaviour-preserving "
+              "patches (must stay silent) and all 278 independently seeded property-breaking patches (owning check must fire).",
     )
     json.dump(man, open(os.path.join(VERIF, "MANIFEST.json"), "w"), indent=1)
     print("MANIFEST.json: %d checks, %d not_applicable" % (len(checks), len(na)))
